@@ -332,7 +332,7 @@ class C15:
         nontrivial = n_notes > 0 and ok_transposes > 0 and probes.get('source_rechecked_after_transpose', 0) > 0
         shape = digest_of([[d.shape() for d in docs], [[o.get('op'), o.get('iv'), o.get('dir'), o.get('h')] for o in plan['ops']]])
         return {'digest': log.digest(), 'events': log.seq, 'faults': faults, 'probes': probes, 'shape': shape, 'nontrivial': nontrivial,
-                'config': plan['config'], 'violations': viol, 'extra': {'sum': {'core_runs': 1 if core else 0, 'notes': n_notes}, 'ivs': sorted(ivs_done)}}
+                'config': plan['config'], 'hash_sensitive': any(o['op'] == 'interrupt' for o in plan['ops']), 'violations': viol, 'extra': {'sum': {'core_runs': 1 if core else 0, 'notes': n_notes}, 'ivs': sorted(ivs_done)}}
 
     # ---- reference model -------------------------------------------------------------------------
     def _expected(self, doc, h, chain, kind):
